@@ -50,7 +50,8 @@ CONSTANTS Syms,       \* symbols allowed in the text of an object (NL excluded)
           KeepHist    \* TRUE: record the read sizes
 
 VARIABLES objs, comp, kind, R,   \* environment, chosen initially
-          plain, file,           \* what dump_to_file wrote (before / after compression)
+          text, plain, file,     \* what dump_to_file wrote: the characters dump() produced,
+                                 \* their encoding, the file (after the optional compression)
           pos,                   \* file.read: units of `file` delivered so far
           rel, eof,              \* decompress: plain bytes released so far, eof flag
           pend,                  \* data.decode: bytes of the incomplete character
@@ -59,7 +60,7 @@ VARIABLES objs, comp, kind, R,   \* environment, chosen initially
           done, err,             \* completion delivered / "none" or the failing stage
           hist
 
-vars == <<objs, comp, kind, R, plain, file, pos, rel, eof, pend, acc, loaded, done, err, hist>>
+vars == <<objs, comp, kind, R, text, plain, file, pos, rel, eof, pend, acc, loaded, done, err, hist>>
 
 (* the C15 model of rxsci.framing.line is re-used for the unframe stage *)
 LF == INSTANCE LineFraming WITH Alphabet <- Syms, MaxItems <- 0, MaxLen <- 0, MaxChunk <- 0,
@@ -97,6 +98,7 @@ DecRest(buf) ==
     IN SubSeq(buf, last + 1, Len(buf))
 
 (* dump -> encode: one chunk of bytes per object; file.write concatenates *)
+TextOfAll(os) == Concat([j \in 1..Len(os) |-> DumpLine(os[j])])
 PlainOf(os) == Concat([j \in 1..Len(os) |-> EncodeItem(DumpLine(os[j]))])
 
 (* axiomatised compressor: header, one data unit per plain byte, trailer *)
@@ -127,20 +129,21 @@ Deliver(n, r) ==
         pchunk == IF comp = 1 THEN SubSeq(plain, rel + 1, r)     \* decompress.on_next
                   ELSE chunk
         buf    == pend \o pchunk                                 \* decode.on_next
-        text   == DecChars(buf)
-        lines  == LF!OnNextOut(acc, text)                        \* unframe.on_next
+        str    == DecChars(buf)
+        lines  == LF!OnNextOut(acc, str)                         \* unframe.on_next
     IN /\ pos' = pos + n
        /\ rel' = r
        /\ eof' = (comp = 1 /\ FrameComplete(pos + n))
        /\ pend' = DecRest(buf)
-       /\ acc' = LF!OnNextAcc(acc, text)
+       /\ acc' = LF!OnNextAcc(acc, str)
        /\ loaded' = loaded \o LoadLines(lines)                   \* load
-       /\ UNCHANGED <<objs, comp, kind, R, plain, file, done, err>>
+       /\ UNCHANGED <<objs, comp, kind, R, text, plain, file, done, err>>
 
 Init ==
     /\ objs \in SeqsUpTo(SeqsUpTo(Syms, MaxLen) \ {<<>>}, MaxObjs)
     /\ comp \in Comps
     /\ \E e \in Envs : kind = (IF e >= 10 THEN "obj" ELSE "path") /\ R = e % 10
+    /\ text = TextOfAll(objs)
     /\ plain = PlainOf(objs)
     /\ file = FileOf(objs, comp)
     /\ pos = 0 /\ rel = 0 /\ eof = FALSE /\ pend = <<>> /\ acc = <<>> /\ loaded = <<>>
@@ -171,7 +174,7 @@ Complete ==
     /\ IF comp = 1 /\ ~eof THEN err' = "decompress" /\ loaded' = loaded
        ELSE IF pend # <<>> THEN err' = "decode" /\ loaded' = loaded
        ELSE err' = err /\ loaded' = loaded \o LoadLines(LF!OnCompletedOut(acc))
-    /\ UNCHANGED <<objs, comp, kind, R, plain, file, pos, rel, eof, pend, acc, hist>>
+    /\ UNCHANGED <<objs, comp, kind, R, text, plain, file, pos, rel, eof, pend, acc, hist>>
 
 Next == ReadFull \/ ReadShort \/ Complete
 
@@ -179,10 +182,9 @@ Spec == Init /\ [][Next]_vars
 
 -----------------------------------------------------------------------------
 (* Specification-level definitions: positions in the written text *)
-Text == Concat([j \in 1..Len(objs) |-> DumpLine(objs[j])])
-
-RECURSIVE ByteLen(_)
-ByteLen(t) == IF t = <<>> THEN 0 ELSE Width(Head(t)) + ByteLen(Tail(t))
+RECURSIVE ByteLenTo(_, _)
+ByteLenTo(t, k) == IF k = 0 THEN 0 ELSE ByteLenTo(t, k - 1) + Width(t[k])
+ByteLen(t) == ByteLenTo(t, Len(t))
 
 (* number of leading elements of `ws` (a sequence of sizes) that end at or before offset d *)
 RECURSIVE CountWithin(_, _, _, _)
@@ -193,7 +195,7 @@ RECURSIVE OffsetAfter(_, _)
 OffsetAfter(ws, k) == IF k = 0 THEN 0 ELSE OffsetAfter(ws, k - 1) + ws[k]
 
 LineSizes == [j \in 1..Len(objs) |-> ByteLen(objs[j]) + 1]
-CharSizes == [j \in 1..Len(Text) |-> Width(Text[j])]
+CharSizes == [j \in 1..Len(text) |-> Width(text[j])]
 LinesWithin(d) == CountWithin(LineSizes, 1, 0, d)     \* lines completely inside plain[1..d]
 CharsWithin(d) == CountWithin(CharSizes, 1, 0, d)     \* characters completely inside plain[1..d]
 
@@ -212,10 +214,10 @@ SerializerAxiom ==
         /\ TextOf(objs[j]) # <<>>
         /\ \A q \in 1..Len(TextOf(objs[j])) : TextOf(objs[j])[q] # NL
         /\ Parse(TextOf(objs[j])) = objs[j]
-CodecAxiom == pos = 0 => DecChars(plain) = Text /\ DecRest(plain) = <<>>
-                         /\ Len(plain) = ByteLen(Text)
-FramingAxiom == pos = 0 => /\ LF!CompleteLines(Text) = [j \in 1..Len(objs) |-> TextOf(objs[j])]
-                           /\ LF!Remainder(Text) = <<>>
+CodecAxiom == pos = 0 => DecChars(plain) = text /\ DecRest(plain) = <<>>
+                         /\ Len(plain) = ByteLen(text)
+FramingAxiom == pos = 0 => /\ LF!CompleteLines(text) = [j \in 1..Len(objs) |-> TextOf(objs[j])]
+                           /\ LF!Remainder(text) = <<>>
 WireAxiom == pos = 0 /\ comp = 1 => /\ Cap(Len(file)) = Len(plain)
                                     /\ FrameComplete(Len(file))
                                     /\ ~FrameComplete(Len(file) - 1)
@@ -229,7 +231,7 @@ ConfluenceDecompress ==
 ConfluenceDecode ==
     ~done => pend = SubSeq(plain, OffsetAfter(CharSizes, CharsWithin(rel)) + 1, rel)
 ConfluenceUnframe ==
-    ~done => LET decoded == SubSeq(Text, 1, CharsWithin(rel)) IN acc = LF!Remainder(decoded)
+    ~done => LET decoded == SubSeq(text, 1, CharsWithin(rel)) IN acc = LF!Remainder(decoded)
 ConfluenceLoad == ~done => loaded = SubSeq(objs, 1, LinesWithin(rel))
 Confluence == /\ ConfluenceRead /\ ConfluenceDecompress /\ ConfluenceDecode
               /\ ConfluenceUnframe /\ ConfluenceLoad
